@@ -99,8 +99,9 @@ ASSUMPTIONS = [
     "single-call energy agrees with a numpy re-evaluation to 1.6e-15 at every stencil point, the compiled batch only to "
     "3e-13 (gap 1e-5) .. 3e-11 (gap 1e-7) at nearly repeated stencil points (D11), i.e. up to 2e-5 M (and 2e-2 M at gap "
     "1e-10) in the second difference, sometimes without tripping the Richardson self-check",
-    "a probe whose measured centre gap is not in (1e-8, 1e-4] (cannot happen by construction; counted if it does) is judged "
-    "like an ordinary deformation",
+    "a probe whose measured centre gap is not in (1e-8, 1e-4] (the gap is measured on ALL decomposed tensors, so e.g. another "
+    "viscous branch with a closer pair takes it out; none in the quick tier, 1 of 14814 in the thorough tier, counted) is "
+    "judged like an ordinary deformation",
 ]
 TAU1 = 1e-6
 FLOOR1 = 1e-4          # tol1 = TAU1 * (|P_fd|_F + FLOOR1 * M)  -> absolute floor 1e-10 M (fd of an energy with absolute rounding eps*M: eps*M/h ~ 3e-13 M)
@@ -119,7 +120,8 @@ TOLERANCES = {
                                                     "custom-JVP rule changes the tangent by O(1)",
     "second derivative at the nearly-repeated probes": "|T_ad - T_fd| <= 1e-6 max(M, max|T_fd|), stencil as single compiled "
         "calls. Worst observed on the unchanged tree (quick, seeds 0-2, all eigen-based models, both modes): 2.6e-3 of this "
-        "tolerance = 2.6e-9 of the scale (J2 seth hill), Richardson-vs-plain 2.7e-3 of it; the seeded np.isclose guard changes "
+        "tolerance = 2.6e-9 of the scale (J2 seth hill), Richardson-vs-plain 2.7e-3 of it; thorough tier seed 0: 7.0e-3 and "
+        "3.2e-2 (rate-dependent J2); the seeded np.isclose guard changes "
         "the J2 seth hill tangent by 3.5e-4 .. 2.1e-3 of the scale (350 .. 2100 tolerances) at every gap 1e-5 .. 1e-12 when the "
         "stress is not isotropic in the pair plane, and by about 0.1 gap elsewhere (J2 large: 1.3e-6 at gap 1e-5)",
     "accuracy of jax.jvp(jax.grad(W)) versus relative gap (unchanged tree, all six eigen-based models, coaxial and turned "
@@ -135,7 +137,8 @@ TOLERANCES = {
     "D11 classification": "relative eigenvalue gap <= 1e-6 (1 + 1e-6) at the centre or a stencil point (the slack keeps the "
                           "probes built with gap 1e-6 on one side of the threshold)",
     "repeated-principal-value classification (open tangent finding)": "relative eigenvalue gap at the centre <= 1e-12; the "
-        "smallest centre gap above 1e-12 of any deformation that is not a probe is tracked (quick seeds 0-2: 1.3e-9), so no "
+        "smallest centre gap above 1e-12 of any deformation that is not a probe is tracked (quick seeds 0-2: 1.3e-9; thorough: "
+        "6.9e-10), so no "
         "enumerated input lies in (1e-12, 1e-10) where the library error (<= 3e-5) is within 100x of the ordinary tolerance",
 }
 
